@@ -639,7 +639,7 @@ func newEmptyResultset(info *SelectPlan, stmt *ast.SelectStmt) *mysql.Resultset 
 	fieldLen -= info.columnCount - info.originColumnCount
 
 	r.Fields = make([]*mysql.Field, fieldLen)
-	for i, expr := range stmt.Fields.Fields {
+	for i, expr := range stmt.Fields.Fields[:fieldLen] {
 		r.Fields[i] = &mysql.Field{}
 		if expr.WildCard != nil {
 			r.Fields[i].Name = []byte("*")
